@@ -88,6 +88,7 @@ def run_case(data):
                            'settings-ack': wire.settings(ack=True),
                            'rst': wire.rst_stream(sid, 8)}[k])
     local_at = ch.int(0, len(chunks)) if ack_data else -1
+    kept = []
     for ci, chunk in enumerate(chunks):
         if ci == local_at:
             # in the middle of it all the application changes its INITIAL_WINDOW_SIZE (the peer's ACK, if it
@@ -101,6 +102,7 @@ def run_case(data):
             evs = c.receive_data(chunk)
         except h2.exceptions.ProtocolError as e:
             err = type(e).__name__
+            kept.append(e)   # the application keeps what it caught (for its log): tracebacks and all stay alive
             continue       # the connection is closed now; what else arrives must still be handled cleanly
         except Exception as e:   # noqa: BLE001 - this is the property: anything else is a violation
             err = type(e).__name__
